@@ -673,6 +673,20 @@ struct CtxSim {
 			if (sdk::serialize(s) != bytes) K.fail("C11", "parse-serialize-not-identical", "setup", "a canonical signature does not re-serialize to the bytes it was parsed from");
 			add_live(s, bytes, hash, level, i == 1 && !blk.hs.empty());
 		}
+		// a long-lived context: the network clients have already numbered this many requests (ids above 255 are no longer the
+		// context's shared small-integer objects)
+		for (int64_t w = 0, n = plan.c("warm", 0); w < n && !live.empty(); w++) {
+			KSI_ExtendReq *rq = nullptr; KSI_RequestHandle *rh = nullptr; KSI_Integer *st = nullptr;
+			KSI_Integer_new(ctx, live[0].agg, &st);
+			if (KSI_createExtendRequest(ctx, st, NULL, &rq) == KSI_OK) {
+				CallEnv e; e.behav = B_STATUS_ERR; e.subseed = (uint64_t)w;
+				bw.arm(e);
+				if (KSI_sendExtendRequest(ctx, rq, &rh) == KSI_OK) KSI_RequestHandle_perform(rh);
+				bw.disarm();
+			}
+			KSI_RequestHandle_free(rh); KSI_ExtendReq_free(rq); KSI_Integer_free(st);
+			if (w == 0) K.count("probe.long_lived_context");
+		}
 		for (int i = 0; i < 3; i++) { ReplyMeta m; bw.world.make_signature(imprint(1, "later" + std::to_string(i)), 0, 900 + i, true, m); }
 		for (size_t i = 0; i < plan.ops.size() && !K.failed() && !K.inconclusive; i++) exec(plan.ops[i]);
 		for (auto &l : live) KSI_Signature_free(l.sig);
@@ -733,6 +747,7 @@ struct HistoryEngine : run::Engine {
 		p.cfg["faults"] = g.chance(1, 2) ? 0 : 1;
 		p.cfg["loglevel"] = g.chance(1, 4) ? 5 : 0;
 		p.cfg["epoch_ms"] = (int64_t)g.below(1000);
+		p.cfg["warm"] = g.chance(1, 25) ? (int64_t)g.range(250, 258) : 0;
 		p.cfg["block_leaves"] = (int64_t)g.below(5);
 		p.cfg["block_leaf_level"] = g.chance(2, 3) ? 0 : (int64_t)g.range(1, 2);
 		int n = tier ? (int)g.range(10, 60) : (int)g.range(4, 24);
